@@ -1176,6 +1176,26 @@ class DiskRefsContainer(RefsContainer):
         if any(ref.startswith(prefix) for ref in packed_refs):
             raise IsADirectoryError(self.refpath(name))
 
+    @staticmethod
+    def _remove_empty_dirs_in_the_way(filename: bytes) -> None:
+        """Remove a tree of empty directories found where a loose ref goes.
+
+        Deleting or packing ``refs/heads/a/b`` can leave the directory
+        ``refs/heads/a`` behind; like git, do not let that keep the ref
+        ``refs/heads/a`` from being written or deleted. A directory that still
+        contains a file is left alone (and the caller fails on it).
+
+        Args:
+          filename: Path of the loose ref file
+        """
+        if not os.path.isdir(filename) or os.path.islink(filename):
+            return
+        for root, _dirs, _files in os.walk(filename, topdown=False):
+            try:
+                os.rmdir(root)
+            except OSError:
+                return
+
     def _remove_packed_ref(self, name: Ref) -> None:
         if name not in self.get_packed_refs():
             return
@@ -1228,6 +1248,7 @@ class DiskRefsContainer(RefsContainer):
         self._check_packed_conflict(name)
         filename = self.refpath(name)
         ensure_dir_exists(os.path.dirname(filename))
+        self._remove_empty_dirs_in_the_way(filename)
         f = GitFile(filename, "wb")
         try:
             f.write(SYMREF + other + b"\n")
@@ -1290,6 +1311,7 @@ class DiskRefsContainer(RefsContainer):
         self._check_packed_conflict(realname)
 
         ensure_dir_exists(os.path.dirname(filename))
+        self._remove_empty_dirs_in_the_way(filename)
         with GitFile(filename, "wb") as f:
             if old_ref is not None:
                 try:
@@ -1367,6 +1389,7 @@ class DiskRefsContainer(RefsContainer):
         self._check_packed_conflict(realname)
         filename = self.refpath(realname)
         ensure_dir_exists(os.path.dirname(filename))
+        self._remove_empty_dirs_in_the_way(filename)
         with GitFile(filename, "wb") as f:
             if os.path.exists(filename) or realname in self.get_packed_refs():
                 f.abort()
@@ -1415,6 +1438,7 @@ class DiskRefsContainer(RefsContainer):
         self._check_refname(name)
         filename = self.refpath(name)
         ensure_dir_exists(os.path.dirname(filename))
+        self._remove_empty_dirs_in_the_way(filename)
         f = GitFile(filename, "wb")
         try:
             if old_ref is not None:
